@@ -450,6 +450,24 @@ package data
 //@ induct [C02.lemma-successor-2] using C02.lemma-div-succ(j, d[1], 0), C02.lemma-div-succ(div(j, d[1]), d[0], 0) (v []int, w []int, d []int, j int) z : implies(j >= 0 && j < pfrom(d, 0, 2) && forall(k, 0, 2, d[k] >= 1 && v[k] == rmc(d, j, 2, k)) && forall(k, 0, carryPos(v, d, 1), w[k] == v[k]) && implies(carryPos(v, d, 1) >= 0, w[carryPos(v, d, 1)] == v[carryPos(v, d, 1)] + 1) && forall(k, carryPos(v, d, 1) + 1, 2, w[k] == 0), forall(k, 0, 2, w[k] == rmc(d, j+1, 2, k)))
 //@ induct [C02.lemma-successor-3] using C02.lemma-pfrom-end(d, 3, 0), C02.lemma-div-succ(j, pfrom(d, 2, 3), 0), C02.lemma-div-succ(div(j, pfrom(d, 2, 3)), d[1], 0), C02.lemma-div-succ(div(j, pfrom(d, 1, 3)), d[0], 0), C02.lemma-div-div(j, pfrom(d, 2, 3), d[1], 0), C02.lemma-div-div(j+1, pfrom(d, 2, 3), d[1], 0) (v []int, w []int, d []int, j int) z : implies(j >= 0 && j < pfrom(d, 0, 3) && forall(k, 0, 3, d[k] >= 1 && v[k] == rmc(d, j, 3, k)) && forall(k, 0, carryPos(v, d, 2), w[k] == v[k]) && implies(carryPos(v, d, 2) >= 0, w[carryPos(v, d, 2)] == v[carryPos(v, d, 2)] + 1) && forall(k, carryPos(v, d, 2) + 1, 3, w[k] == 0), forall(k, 0, 3, w[k] == rmc(d, j+1, 3, k)))
 
+// row-major position of an index vector v in an array with extents d
+//@ spec rav(v []int, d []int, N int, n int) int = ite(n <= 0, 0, rav(v, d, N, n-1) + v[n-1]*pfrom(d, n, N))
+// the row-major coordinates of j ravel back to j minus its remainder (Lemma B without a stride vector)
+//@ induct [C02.lemma-rav-digits] using C02.lemma-Q-radix-step(j, pfrom(d, n+1, N), d[n], 0) (v []int, d []int, j int, N int) n : implies(n <= N && j >= 0 && forall(k, 0, N, d[k] >= 1) && forall(k, 0, N+1, pfrom(d, k, N) >= 1) && forall(k, 0, n, v[k] == rmc(d, j, N, k)), rav(v, d, N, n) + mod(j, pfrom(d, n, N)) == mod(j, pfrom(d, 0, N)))
+// a number below the modulus is its own remainder (induction variable unused)
+//@ induct [C02.lemma-mod-small] (j int, X int) z : implies(0 <= j && j < X, mod(j, X) == j && mod(j, 1) == 0)
+// ... so an index vector made of the coordinates of j < number of elements is at position j
+//@ induct [C02.lemma-rav-of-digits] using C02.lemma-rav-digits(v, d, j, N, N), C02.lemma-pfrom-positive(d, N, N), C02.lemma-iprod-is-pfrom0(d, N, 0), C02.lemma-pfrom-end(d, N, 0), C02.lemma-mod-small(j, pfrom(d, 0, N), 0) (v []int, d []int, j int, N int) z : implies(N >= 1 && 0 <= j && j < iprod(d, N) && forall(k, 0, N, d[k] >= 1 && v[k] == rmc(d, j, N, k)), rav(v, d, N, N) == j)
+
+// v holds the row-major coordinates of j
+//@ specu isdigits(v []int, d []int, j int, N int) bool = forall(k, 0, N, v[k] == rmc(d, j, N, k))
+// one index vector cannot hold the coordinates of two different positions
+//@ induct [C02.lemma-digits-unique] using C02.lemma-rav-of-digits(v, d, j1, N, 0), C02.lemma-rav-of-digits(v, d, j2, N, 0) (v []int, d []int, j1 int, j2 int, N int) z : implies(N >= 1 && 0 <= j1 && j1 < iprod(d, N) && 0 <= j2 && j2 < iprod(d, N) && forall(k, 0, N, d[k] >= 1) && isdigits(v, d, j1, N) && isdigits(v, d, j2, N), j1 == j2)
+
+// equal extents give equal suffix products, digits and element counts (two arrays of one shape)
+//@ induct [C02.lemma-pfrom-ext] (d []int, e []int, N int) n : implies(n <= N && forall(k, 0, N, d[k] == e[k]), forall(k, N-n, N+1, pfrom(d, k, N) == pfrom(e, k, N)))
+//@ induct [C02.lemma-isdigits-ext] using C02.lemma-pfrom-ext(d, e, N, N) (v []int, d []int, e []int, j int, N int) z : implies(N >= 0 && forall(k, 0, N, d[k] == e[k]) && isdigits(v, d, j, N), isdigits(v, e, j, N))
+//@ induct [C02.lemma-iprod-ext] (d []int, e []int) n : implies(forall(k, 0, n, d[k] == e[k]), iprod(d, n) == iprod(e, n))
 // General-rank interface model ("ndmodel rowmajor"): an array x of unknown back-end has
 // extents x.shape - the slice its Shape() returns (x.rank entries, an object that exists at
 // entry and that nobody writes) - and row-major elements x.at(j), j < iprod(x.shape).
@@ -457,7 +475,12 @@ package data
 //@   ensures s.id == x.g_shapeid && s.off == 0 && len(s) == x.rank
 //@   assigns nothing
 //@ iface rowmajor:Contiguous(x) returns (b)
+//@   ensures iff(b, x.g_contig == 1)
 //@   assigns nothing
+//@ iface rowmajor:Set(x, loc, val)
+//@   requires len(loc) == x.rank && forall(k, 0, x.rank, 0 <= loc[k] && loc[k] < x.shape[k])
+//@   assigns x.cells
+//@   ensures forall(j, 0, iprod(x.shape, x.rank), x.at(j) == ite(isdigits(loc, x.shape, j, x.rank), val, old(x.at(j))))
 //@ iface rowmajor:NewIndex(x, val) returns (r)
 //@   fresh r
 //@   ensures len(r) == x.rank && forall(k, 0, x.rank, r[k] == val)
@@ -465,7 +488,12 @@ package data
 //@ iface rowmajor:Get(x, loc) returns (v)
 //@   requires len(loc) == x.rank && forall(k, 0, x.rank, 0 <= loc[k] && loc[k] < x.shape[k])
 //@   ensures forall(j, 0, iprod(x.shape, x.rank), implies(forall(k, 0, x.rank, loc[k] == rmc(x.shape, j, x.rank, k)), v == x.at(j)))
+//@   ensures forall(j, 0, iprod(x.shape, x.rank), implies(isdigits(loc, x.shape, j, x.rank), v == x.at(j)))
 //@   assigns nothing
+//@ iface rowmajor:CopyFrom(x, other)
+//@   requires other != nil && other.rank == x.rank && forall(k, 0, x.rank, other.shape[k] == x.shape[k])
+//@   assigns x.cells
+//@   ensures forall(j, 0, iprod(x.shape, x.rank), x.at(j) == old(other.at(j)))
 //@ iface rowmajor:Unroll(x) returns (r)
 //@   ensures r.id == x.g_unrollid && r.off == 0 && len(r) == iprod(x.shape, x.rank) && forall(j, 0, iprod(x.shape, x.rank), r[j] == x.at(j))
 //@   assigns nothing
@@ -579,3 +607,81 @@ package data
 //@   dyntype r nd{t}
 //@   ensures [C02.mustreshape-aliases-when-contiguous] implies(contigc(nd.Dims, nd.OriginalDims, nd.Step, nd.Offset, len(nd.Dims)), as(r, nd{t}).Impl.id == nd.Impl.id)
 //@   ensures [C02.mustreshape-rowmajor] implies(iprod(newShape, len(newShape)) > 1, forall(j, 0, iprod(newShape, len(newShape)), as(r, nd{t}).Impl[as(r, nd{t}).Start + rmaddr(newShape, as(r, nd{t}).OffsetStep, j, len(newShape), len(newShape))] == nd.Impl[nd.Start + rmaddr(nd.Dims, nd.OffsetStep, j, len(nd.Dims), len(nd.Dims))]))
+
+// ---- whole-array helpers (data/arrayops.go) over the general-rank interface model (C02); BOUNDED by rank 3 ----
+
+//@ types {T} = ArrayType, Float64, Float32, Int32, Uint32, Int64, Uint64
+
+// The array the Go back-end builds over an existing slice, seen through the interface model:
+// element j (row-major) is data[j]. This is the bridge between the concrete header of the Go
+// back-end (whose fields, Index and Get are proved in C01) and the abstract row-major view; it
+// is ASSUMED here, not proved.
+//@ func ArrayFromSlice{T}(data, dims) returns (r)
+//@   ndmodel rowmajor
+//@   trusted bridge: the Go-backed array over data with extents dims has data[j] as its row-major element j
+//@   requires dims.off == 0 && iprod(dims, len(dims)) == len(data)
+//@   fresh r
+//@   assigns nothing
+//@   ensures r != nil && r.rank == len(dims) && r.g_shapeid == dims.id && forall(j, 0, len(data), r.at(j) == data[j])
+
+//@ func AddTo{T}Array(dest, source)
+//@   ndmodel rowmajor
+//@   simplify entry-ids
+//@   bounded rank <= 3 (mixed-radix successor lemma per rank)
+//@   uses C02.lemma-digits-unique
+//@   instantiate C02.lemma-iprod-is-pfrom0(dest.shape, dest.rank, 0)
+//@   instantiate C02.lemma-pfrom-positive(dest.shape, dest.rank, dest.rank)
+//@   instantiate C02.lemma-iprod-ext(dest.shape, source.shape, dest.rank)
+//@   loop 1 headinstantiate C02.lemma-isdigits-ext(idx, dest.shape, source.shape, pos, dest.rank, 0)
+//@   loop 1 instantiate C02.lemma-successor-1(pre(seq(idx)), idx, dest.shape, pos, 0)
+//@   loop 1 instantiate C02.lemma-successor-2(pre(seq(idx)), idx, dest.shape, pos, 0)
+//@   loop 1 instantiate C02.lemma-successor-3(pre(seq(idx)), idx, dest.shape, pos, 0)
+//@   requires dest != nil && source != nil && dest != source && 1 <= dest.rank && dest.rank <= 3 && source.rank == dest.rank && forall(k, 0, dest.rank, dest.shape[k] >= 1 && source.shape[k] == dest.shape[k])
+//@   requires dest.g_unrollid != source.g_unrollid
+//@   assigns dest.cells
+//@   callsite CopyFrom [C02.addto-stores-through-the-interface] arg0 == dest
+//@   ensures [C02.addto-elementwise-general-path] implies(!(dest.g_contig == 1 && source.g_contig == 1), forall(j, 0, iprod(dest.shape, dest.rank), dest.at(j) == old(dest.at(j)) + source.at(j)))
+//@   ensures [C02.addto-elementwise-fast-path] implies(dest.g_contig == 1 && source.g_contig == 1, forall(j, 0, iprod(dest.shape, dest.rank), dest.at(j) == old(dest.at(j)) + source.at(j)))
+//@   canary [C02.addto-canary] implies(iprod(dest.shape, dest.rank) >= 1, dest.at(0) == old(dest.at(0)))
+//@   loop 0 invariant -1 <= rangeindex && rangeindex < len(destSlice) && destSlice.id == dest.g_unrollid && sourceSlice.id == source.g_unrollid && destSlice.off == 0 && sourceSlice.off == 0 && len(destSlice) == iprod(dest.shape, dest.rank) && len(sourceSlice) == len(destSlice)
+//@   loop 0 invariant forall(j, 0, len(destSlice), sourceSlice[j] == source.at(j) && destSlice[j] == ite(j <= rangeindex, old(dest.at(j)) + source.at(j), old(dest.at(j))))
+//@   loop 1 prestep [C02.addto-step-value] dest.at(pre(pos)) == pre(dest.at(pos)) + source.at(pre(pos))
+//@   loop 1 prestep [C02.addto-step-frame] forall(j, 0, size, implies(j != pre(pos), dest.at(j) == pre(dest.at(j))))
+//@   loop 1 invariant 0 <= pos && pos <= size && size == iprod(dest.shape, dest.rank) && len(idx) == dest.rank && shape.id == dest.g_shapeid && len(shape) == dest.rank
+//@   loop 1 invariant isdigits(idx, dest.shape, pos, dest.rank)
+//@   loop 1 invariant forall(j, 0, pos, dest.at(j) == old(dest.at(j)) + source.at(j)) && forall(j, pos, size, dest.at(j) == old(dest.at(j)))
+
+// fn is modelled as a pure, deterministic function of its argument (A-PURE-FN)
+//@ func ApplyFunc1{T}(dest, source, fn)
+//@   ndmodel rowmajor
+//@   simplify entry-ids
+//@   bounded rank <= 3 (mixed-radix successor lemma per rank)
+//@   uses C02.lemma-digits-unique
+//@   instantiate C02.lemma-iprod-is-pfrom0(dest.shape, dest.rank, 0)
+//@   instantiate C02.lemma-pfrom-positive(dest.shape, dest.rank, dest.rank)
+//@   instantiate C02.lemma-iprod-ext(dest.shape, source.shape, dest.rank)
+//@   loop 1 headinstantiate C02.lemma-isdigits-ext(idx, dest.shape, source.shape, pos, dest.rank, 0)
+//@   loop 1 instantiate C02.lemma-successor-1(pre(seq(idx)), idx, dest.shape, pos, 0)
+//@   loop 1 instantiate C02.lemma-successor-2(pre(seq(idx)), idx, dest.shape, pos, 0)
+//@   loop 1 instantiate C02.lemma-successor-3(pre(seq(idx)), idx, dest.shape, pos, 0)
+//@   requires dest != nil && source != nil && dest != source && 1 <= dest.rank && dest.rank <= 3 && source.rank == dest.rank && forall(k, 0, dest.rank, dest.shape[k] >= 1 && source.shape[k] == dest.shape[k])
+//@   requires dest.g_unrollid != source.g_unrollid
+//@   assigns dest.cells
+//@   callsite CopyFrom [C02.applyfunc-stores-through-the-interface] arg0 == dest
+//@   ensures [C02.applyfunc-elementwise-general-path] implies(!(dest.g_contig == 1 && source.g_contig == 1), forall(j, 0, iprod(dest.shape, dest.rank), dest.at(j) == fn(source.at(j))))
+//@   ensures [C02.applyfunc-elementwise-fast-path] implies(dest.g_contig == 1 && source.g_contig == 1, forall(j, 0, iprod(dest.shape, dest.rank), dest.at(j) == fn(source.at(j))))
+//@   canary [C02.applyfunc-canary] implies(iprod(dest.shape, dest.rank) >= 1, dest.at(0) == old(dest.at(0)))
+//@   loop 0 invariant -1 <= rangeindex && rangeindex < len(destSlice) && destSlice.id == dest.g_unrollid && sourceSlice.id == source.g_unrollid && destSlice.off == 0 && sourceSlice.off == 0 && len(destSlice) == iprod(dest.shape, dest.rank) && len(sourceSlice) == len(destSlice)
+//@   loop 0 invariant forall(j, 0, len(destSlice), sourceSlice[j] == source.at(j) && destSlice[j] == ite(j <= rangeindex, fn(source.at(j)), old(dest.at(j))))
+//@   loop 1 prestep [C02.applyfunc-step-value] dest.at(pre(pos)) == fn(source.at(pre(pos)))
+//@   loop 1 prestep [C02.applyfunc-step-frame] forall(j, 0, size, implies(j != pre(pos), dest.at(j) == pre(dest.at(j))))
+//@   loop 1 invariant 0 <= pos && pos <= size && size == iprod(dest.shape, dest.rank) && len(idx) == dest.rank && shape.id == dest.g_shapeid && len(shape) == dest.rank
+//@   loop 1 invariant isdigits(idx, dest.shape, pos, dest.rank)
+//@   loop 1 invariant forall(j, 0, pos, dest.at(j) == fn(source.at(j))) && forall(j, pos, size, dest.at(j) == old(dest.at(j)))
+
+//@ func Scale{T}Array(dest, source, scale)
+//@   ndmodel rowmajor
+//@   requires dest != nil && source != nil && dest != source && 1 <= dest.rank && dest.rank <= 3 && source.rank == dest.rank && forall(k, 0, dest.rank, dest.shape[k] >= 1 && source.shape[k] == dest.shape[k])
+//@   requires dest.g_unrollid != source.g_unrollid
+//@   assigns dest.cells
+//@   ensures [C02.scale-elementwise] forall(j, 0, iprod(dest.shape, dest.rank), dest.at(j) == source.at(j) * scale)
